@@ -177,6 +177,49 @@ pub fn run_sponge_more(op: &str, a: &[Arg], st: &mut Stats) -> Option<Out> {
                     }
                 }
             }
+            // same length / same prefix, different tail (and the first input again): three different answers, each the
+            // explicit one; fixed-length hashing likewise, against the explicit permutation of input ++ 1^6
+            if res.is_ok() {
+                for len in [1usize, 9, 10, 11, 25, 200] {
+                    let base = input_of(&mut r, len);
+                    let mut tail = base.clone();
+                    tail[len - 1] = tail[len - 1] + BFieldElement::new(1);
+                    let mut head = base.clone();
+                    head[0] = head[0] + BFieldElement::new(1);
+                    st.hit("mix:same-length-same-prefix");
+                    let ds: Result<Vec<Digest>, String> = [&base, &tail, &head, &base].iter().map(|i| check_varlen(i, 1, "(same length as the previous input, one element different)")).collect();
+                    n += 4;
+                    match ds {
+                        Err(e) => { res = Err(e); break; }
+                        Ok(d) => if d[0] == d[1] || d[0] == d[2] || d[0] != d[3] {
+                            res = Err(format!("hash_varlen: inputs of length {len} that differ in one element do not get three different digests / the same input does not get the same digest again"));
+                            break;
+                        }
+                    }
+                }
+            }
+            if res.is_ok() {
+                let fixed = |x: &[BFieldElement; 10]| -> Result<(), String> {
+                    let mut s = Tip5::new(twenty_first::util_types::sponge::Domain::FixedLength);
+                    s.state[..RATE].copy_from_slice(x);
+                    s.permutation();
+                    if Tip5::hash_10(x)[..] != s.state[..5] {
+                        return Err("hash_10 differs from the explicit permutation of input ++ 1^6 (after an input with the same prefix)".into());
+                    }
+                    let (l, rr) = (Digest::new(x[..5].try_into().unwrap()), Digest::new(x[5..].try_into().unwrap()));
+                    if Tip5::hash_pair(l, rr).values()[..] != s.state[..5] {
+                        return Err("hash_pair differs from the explicit permutation of left ++ right ++ 1^6 (after a pair with the same left digest)".into());
+                    }
+                    Ok(())
+                };
+                let x: [BFieldElement; 10] = input_of(&mut r, 10).try_into().unwrap();
+                let mut y = x;
+                y[9] = y[9] + BFieldElement::new(1);
+                for v in [&x, &y, &x] {
+                    n += 1;
+                    if let Err(e) = fixed(v) { res = Err(e); break; }
+                }
+            }
             wrap(res.map(|_| format!("ok:{n}")))
         }
         _ => return None,
